@@ -1,2 +1,32 @@
-(* C05 - theorems follow in this commit series *)
-From TW Require Import Bytes.
+(* C05 - text passes through byte for byte.
+   Proved: for EVERY byte string with no NUL, no "{{" and no '@' that starts a directive keyword
+   (the keyword table is regenerated from token/token.go), the lexer model (mirror of lexer.go:
+   readHTML, isDirectiveToken, areBracesToken) yields one text token whose literal is the input
+   followed by EOF, the parser model one HTML statement, and the render of the model is the input
+   itself, whatever the data; the reference scanner of Spec/Text.v is the identity on such text.
+   Decided on generated instances (not theorems): the escapes "\{{" and "\@directive", comments,
+   text around code blocks - exhaustive short strings over the escape/comment alphabet, spliced
+   segments, with the reference scanner as oracle. *)
+From Coq Require Import String.
+From TW Require Import Bytes GenToken Lexer Ast Parser Values Builtins Eval Render Text Passthrough.
+Open Scope N_scope.
+
+Theorem C05_plain_text_renders_as_itself cx s data en :
+  plain s = true -> env_from_map data = EnvOk en -> evaluate_string cx s data = RenderOk s.
+Proof. exact (plain_text_renders_as_itself cx s data en). Qed.
+Print Assumptions C05_plain_text_renders_as_itself.
+
+Theorem C05_plain_text_is_one_token s :
+  s <> [] -> plain s = true ->
+  exists t e, lex_all s = Some [t; e] /\ ttype t = T_HTML /\ tlit t = s /\ ttype e = T_EOF.
+Proof. exact (plain_text_lexes_to_one_html_token s). Qed.
+Print Assumptions C05_plain_text_is_one_token.
+
+Theorem C05_reference_scanner_is_identity_on_plain_text s : plain s = true -> text_spec s = TOut s.
+Proof. exact (reference_scanner_is_identity_on_plain_text s). Qed.
+Print Assumptions C05_reference_scanner_is_identity_on_plain_text.
+
+Example C05_example :
+  plain (bs "a \ { } @ me@x.org -- <p class='q'> 100% }} {") = true /\
+  plain (bs "x {{ 1 }}") = false /\ plain (bs "@if") = false.
+Proof. exact plain_example. Qed.
